@@ -20,9 +20,14 @@ GROUPS = {
     "Bundle": ("manif::Bundle<S, manif::SE2, manif::SO3, manif::R2>", dict(rot=False, tra=False, norm=False)),
 }
 SCALARS = ["double", "float"]
-STORAGES = ["owning", "map", "cmap"]
+STORAGES = ["owning", "map", "cmap", "mixA", "mixB", "mixC"]
+# storage of the operands (X, Y, w, t) in each kind; the mixed kinds give every ordered pair of operands of a binary entry two different
+# storages (X/Y, w/t and X/w each see owning-const view, view-owning and const view-view once)
+KIND = {"owning": "oooo", "map": "mmmm", "cmap": "cccc", "mixA": "ocmo", "mixB": "mocm", "mixC": "cmoc"}
+STORAGE_TEXT = {"owning": "owning", "map": "Eigen::Map", "cmap": "Eigen::Map<const>", "mixA": "mixed (X owning, Y Map<const>, w Map, t owning)",
+                "mixB": "mixed (X Map, Y owning, w Map<const>, t Map)", "mixC": "mixed (X Map<const>, Y Map, w owning, t Map<const>)"}
 
-# (name, needs, expression, canonical expression)   needs: "" | "mut" (requires a mutable operand) | "rot" | "tra" | "norm" | "own" (owning operand only)
+# (name, needs, expression, canonical expression)   needs: "" | "mut" (requires a mutable operand) | "same" (both operands of one type by signature) | "rot" | "tra" | "norm" | "own" (owning operand only)
 # expressions evaluate to something `val()` can flatten: a group element, a tangent, an Eigen matrix, a scalar or a bool
 E = []
 def e(name, expr, canon, needs=""): E.append((name, needs, expr, canon))
@@ -115,20 +120,40 @@ e("manif::random(X)", "[&]{ manif::random(X); return X.isApprox(X); }()", "true"
 e("manif::Identity<G>()", "manif::Identity<G>()", "G::Identity()")
 e("manif::Zero<T>()", "manif::Zero<T>()", "T::Zero()")
 # --- algorithms
-e("interpolate(X,Y,u) SLERP", "manif::interpolate(X, Y, S(0.25))", "Xo.rplus(Yo.rminus(Xo)*S(0.25))")
-e("interpolate(X,Y,u,CUBIC)", "manif::interpolate(X, Y, S(0), manif::INTERP_METHOD::CUBIC).isApprox(Xo, S(1e-3))", "true")
-e("interpolate(X,Y,u,CNSMOOTH)", "manif::interpolate(X, Y, S(1), manif::INTERP_METHOD::CNSMOOTH).isApprox(Yo, S(1e-3))", "true")
+# "same": the documented signature takes both operands as LieGroupBase<_Derived> of ONE derived type (no _DerivedOther), so the mixed-storage kinds are not documented instantiations
+e("interpolate(X,Y,u) SLERP", "manif::interpolate(X, Y, S(0.25))", "Xo.rplus(Yo.rminus(Xo)*S(0.25))", "same")
+e("interpolate(X,Y,u,CUBIC)", "manif::interpolate(X, Y, S(0), manif::INTERP_METHOD::CUBIC).isApprox(Xo, S(1e-3))", "true", "same")
+e("interpolate(X,Y,u,CNSMOOTH)", "manif::interpolate(X, Y, S(1), manif::INTERP_METHOD::CNSMOOTH).isApprox(Yo, S(1e-3))", "true", "same")
 for nm in ("average_biinvariant", "average", "average_frechet_left", "average_frechet_right"):
     e("%s(points)" % nm, "[&]{ std::vector<G, Eigen::aligned_allocator<G>> p{Xo, Xo}; return manif::%s(p).isApprox(Xo, S(1e-3)); }()" % nm, "true", "own")
 e("decasteljau(points,d,k)", "[&]{ std::vector<G> p{Xo, Yo, Xo}; auto c = manif::decasteljau(p, 2, 2); return (int)c.size(); }()", "4", "own")
 
 ENTRIES = E
 
+import re as _re
+def operands_of(entry):
+    return sorted(set(_re.findall(r"(?<![A-Za-z0-9_:.])(X|Y|w|t)(?![A-Za-z0-9_(<:])", entry[2])))
+def is_binary(entry): return len(operands_of(entry)) >= 2
+def mutated(entry):
+    """the operand a "mut" entry mutates: the first one its documented spelling names"""
+    m = _re.search(r"(?<![A-Za-z0-9_:.])(X|w)(?![A-Za-z0-9_(<:])", entry[0])
+    return m.group(1)
+def needs_of(entry):
+    """the needs as the Coq table has them: mut is split by mutated operand, bin marks the entries with two stored operands"""
+    out = []
+    for n in entry[1].split():
+        out.append(("mutX" if mutated(entry) == "X" else "mutW") if n == "mut" else n)
+    if is_binary(entry) and "same" not in out: out.append("bin")
+    return out
 def applicable(entry, gname, storage):
     name, needs, _, _ = entry
     props = GROUPS[gname][1]
-    for n in needs.split():
-        if n == "mut" and storage == "cmap": return False
+    kind = KIND[storage]
+    if storage.startswith("mix") and "bin" not in needs_of(entry): return False
+    for n in needs_of(entry):
+        if n == "same": continue
+        if n == "mutX" and kind[0] == "c": return False
+        if n == "mutW" and kind[2] == "c": return False
         if n == "own" and storage != "owning": return False
         if n in ("rot", "tra", "norm") and not props[n]: return False
     return True
@@ -162,11 +187,13 @@ struct Data { G::DataType x, y; T::DataType w, t; V v; Data(){ G a = T(T::DataTy
   w = T::DataType::Constant(S(0.1)); t = T::DataType::Constant(S(0.25)); for(int i=0;i<w.size();i++){ w(i) += S(0.01*i); t(i) -= S(0.02*i); } v = V::Constant(S(0.5)); } };
 '''
 def operands(storage):
-    if storage == "owning":
-        return "G X(d.x), Y(d.y); T w(d.w), t(d.t);"
-    if storage == "map":
-        return "G::DataType bx = d.x, by = d.y; T::DataType bw = d.w, bt = d.t; Eigen::Map<G> X(bx.data()), Y(by.data()); Eigen::Map<T> w(bw.data()), t(bt.data());"
-    return "G::DataType bx = d.x, by = d.y; T::DataType bw = d.w, bt = d.t; Eigen::Map<const G> X(bx.data()), Y(by.data()); Eigen::Map<const T> w(bw.data()), t(bt.data());"
+    kind = KIND[storage]
+    out = "G::DataType bx = d.x, by = d.y; T::DataType bw = d.w, bt = d.t; "
+    for nm, ty, k in (("X", "G", kind[0]), ("Y", "G", kind[1]), ("w", "T", kind[2]), ("t", "T", kind[3])):
+        if k == "o": out += "%s %s(d.%s); " % (ty, nm, nm.lower())
+        elif k == "m": out += "Eigen::Map<%s> %s(b%s.data()); " % (ty, nm, nm.lower())
+        else: out += "Eigen::Map<const %s> %s(b%s.data()); " % (ty, nm, nm.lower())
+    return out
 
 def entry_fn(i, entry, storage):
     name, needs, expr, canon = entry
